@@ -68,15 +68,22 @@ def run_case(case, ctx):
         nxt = f(t0)
         away = (nxt > t0 and not fwd) or (nxt < t0 and fwd)
         if nxt == t0:
-            raise HarnessError('zero bump generated')
+            if kind != 'compound':
+                raise HarnessError('zero bump generated')
+            away = True          # parts that cancel at t0: the bump does not point towards t1 either
         exp = None
+        stall = False
         if not away:
             exp = []
             t = t0
             cap = 40000 if case.get('long_walk') else 5000
             while inside(t) and len(exp) < cap:
                 exp.append(t)
-                t = f(t)
+                t2 = f(t)
+                if (t2 <= t) if fwd else (t2 >= t):
+                    stall = True      # parts of opposite sign that cancel (or overshoot) later in the walk, e.g. '1m-28d' reaching 1 February: the walk cannot reach t1
+                    break
+                t = t2
             if len(exp) >= cap:
                 raise HarnessError('span too long')
     if t0 == t1:
@@ -109,6 +116,12 @@ def run_case(case, ctx):
         return
     if t0 == t1:
         ctx.check('single_point', st == 'ok' and list(res) == [t0], lambda: 'drange(t, t, %r) = %s %r' % (bump, st, res))
+        return
+    if not away and kind != 'b' and t0 != t1 and stall:
+        # neither an unbounded list (the step budget above) nor a list that is not strictly monotone: the statement leaves ValueError
+        ctx.check('away_bump_raises', st == 'exc' and isinstance(res, ValueError), lambda: 'drange(%s, %s, %r): iterating the bump stops advancing at %s (next: %s) -> %s %r (expected ValueError)' % (t0, t1, bump, exp[-1], step_fn(bump)(exp[-1]), st, res if st != 'ok' else res[-3:]))
+        ctx.cls('stalls_mid_walk')
+        ctx.mark_nontrivial(case)
         return
     if away:
         ctx.check('away_bump_raises', st == 'exc' and isinstance(res, ValueError), lambda: 'drange(%s, %s, %r) with a bump pointing away from t1 -> %s %r (expected ValueError)' % (t0, t1, bump, st, res if st != 'ok' else res[:5]))
@@ -234,6 +247,11 @@ def gen_case(rng):
             big_u, small_u, nsmall = rng.choice([('w', 'd', 3), ('m', 'd', 3), ('y', 'm', 3), ('d', 'h', 12), ('q', 'd', 5), ('m', 'w', 1)])
             units = big_u + small_u
             parts = ['%d%s' % (rng.choice([1, 2]) * sign, big_u), '%d%s' % (-rng.randint(1, nsmall) * sign, small_u)]
+            if rng.random() < 0.3:
+                # ... parts that nearly cancel: the net step shrinks to nothing (or turns round) in a short month
+                big_u, small_u, lo_, hi_ = rng.choice([('m', 'd', 27, 31), ('m', 'w', 4, 4), ('q', 'd', 88, 92), ('y', 'd', 364, 366), ('w', 'd', 6, 8)])
+                units = big_u + small_u
+                parts = ['%d%s' % (sign, big_u), '%d%s' % (-rng.randint(lo_, hi_) * sign, small_u)]
             if rng.random() < 0.5:
                 parts.reverse()
         bump = ''.join(parts)
